@@ -329,12 +329,16 @@ class Session:
         return r
 
     # -- proving ---------------------------------------------------------------------------------
-    def prove(self, oid, ctx, goal, hyps=(), function=None, replay=None, what=None, holes=None, timeout_ms=None, nl_budget_ms=None):
+    def prove(self, oid, ctx, goal, hyps=(), function=None, replay=None, what=None, holes=None, timeout_ms=None, nl_budget_ms=None, candidate_only=False):
         """Obligation: (definitional axioms of ctx /\\ hyps) => goal, for all values of the free symbols.
         holes: optional {z3 key constant: [candidate key terms]} — existential key holes (DESIGN 1.3)."""
         t0 = time.time()
         try:
-            return self._prove(oid, ctx, goal, hyps, function, replay, what, holes, timeout_ms or self.timeout_ms, nl_budget_ms)
+            rec = self._prove(oid, ctx, goal, hyps, function, replay, what, holes, timeout_ms or self.timeout_ms, nl_budget_ms)
+            if candidate_only and rec.get("status") == "failed":
+                # one side of the obligation is an ABSTRACTED library (uninterpreted law): a counter-model is only a candidate - a violation only if the native replay reproduces it
+                rec["abstraction_incomplete"] = True
+            return rec
         except ir.Unsupported as e:
             return self._record(oid, "undecided", reason=f"unsupported: {e}", function=function, seconds=time.time() - t0)
 
